@@ -65,6 +65,7 @@ type SimPools struct {
 	digest      uint64
 	stats       PoolStats
 	handedTwice uint64
+	lastDouble  uint32 // kind<<8|class of the last double return
 }
 
 var P SimPools
@@ -227,8 +228,9 @@ func (p *SimPools) PoolPut(kind, class int, v interface{}) {
 	var id uint32
 	if i := p.findObj(ptr); i >= 0 {
 		id = p.objs[i].id
-		if p.objs[i].state == 2 {
+		if p.objs[i].state == 2 && ptr != 0 {
 			p.stats.DoubleReturn++
+			p.lastDouble = uint32(kind)<<8 | uint32(class)
 		}
 		p.objs[i].state = 2
 	} else {
@@ -252,6 +254,11 @@ func (p *SimPools) PoolPut(kind, class int, v interface{}) {
 	}
 	fl := &p.lists[kind][class]
 	if fl.n == freeCap {
+		// the oldest entry falls out of the free list: from here on the collector may free it and reuse its
+		// address, so the ledger forgets it (state 2 must mean "is in a free list right now")
+		if i := p.findObj(fl.e[0].ptr); i >= 0 && p.objs[i].state == 2 {
+			p.objs[i].state = 0
+		}
 		for i := 0; i < fl.n-1; i++ {
 			fl.e[i] = fl.e[i+1]
 		}
